@@ -35,8 +35,16 @@ Fixpoint convs_equal (a b : convs) : bool :=
 Definition has_compression (c : convs) : bool :=
   existsb (fun l => match l with Zstd => true end) c.
 
-(* ---------- errors.go: the three classes the wrappers distinguish ---------- *)
-Inductive err := EMissing (* ChunkMissing *) | EInvalid (* ChunkInvalid *) | EOther.
+(* ---------- errors.go: the classes the wrappers and the readers distinguish ---------- *)
+Inductive err :=
+| EMissing   (* ChunkMissing *)
+| EInvalid   (* ChunkInvalid *)
+| EOther
+| EEof.      (* an error value that IS io.EOF: what Protocol.ReadMessage returns once the
+                peer has closed the stream; readers treat it as a clean end of stream *)
+
+(* errors.Wrap: the class survives (errors.As), the identity with io.EOF does not *)
+Definition wrap_err (e : err) : err := match e with EEof => EOther | _ => e end.
 Inductive res (A : Type) := Ok (a : A) | Err (e : err).
 Arguments Ok {A} a.
 Arguments Err {A} e.
@@ -341,7 +349,7 @@ Section ChunkVerify.
     | g :: r => match g w with
                 | (Ok c, w1) => (Ok c, w1)
                 | (Err EMissing, w1) => router_get r w1
-                | (Err e, w1) => (Err e, w1)        (* errors.Wrap(err, s.String()) *)
+                | (Err e, w1) => (Err (wrap_err e), w1)        (* errors.Wrap(err, s.String()) *)
                 end
     end.
 
@@ -415,18 +423,20 @@ Section ChunkVerify.
         match fl with
         | NoFault => (Err EMissing, w2)           (* CaProtocolMissing *)
         | FReplace b => (new_chunk_from_storage i b [Zstd] false, w2)
-        | _ => (Err EOther, w2)
+        | FIO => (Err EEof, w2)                   (* stream closed before the answer *)
+        | FRead _ => (Err EOther, w2)             (* stream closed inside the answer *)
         end
-    | (Err _, w1) => (Err EOther, w1)             (* server gives up; the client reads EOF *)
+    | (Err _, w1) => (Err EEof, w1)               (* the server gives up; the client reads EOF *)
     | (Ok c, w1) =>
         match data_of c with
-        | None => (Err EOther, w1)
+        | None => (Err EEof, w1)                  (* chunk.Data() fails on the server: it gives up *)
         | Some b =>
             let (fl, w2) := net h i w1 in
             match fl with
             | NoFault => (new_chunk_from_storage i (zcomp b) [Zstd] false, w2)
             | FReplace b' => (new_chunk_from_storage i b' [Zstd] false, w2)
-            | _ => (Err EOther, w2)
+            | FIO => (Err EEof, w2)
+            | FRead _ => (Err EOther, w2)
             end
         end
     end.
@@ -522,6 +532,57 @@ Section ChunkVerify.
     match get s (fst row) w with
     | (Err _, w1) => (None, w1)
     | (Ok c, w1) => (data_of c, w1)
+    end.
+
+  (* io.Copy(dst, NewIndexReadSeeker(idx, s)) as `desync cat` does it: the bytes copied and
+     whether Copy returns nil.  IndexPos.Read turns an io.EOF coming out of loadChunk into
+     io.ErrUnexpectedEOF (commit 898d634), every other error is handed on; io.Copy takes a
+     bare io.EOF for the end of the stream.  (Chunks are taken whole: verified chunks have
+     the indexed length.) *)
+  Definition readseeker_load_err (s : stack) (null_id : id) (null_data : bytes) (row : id * nat) (w : world)
+    : res bytes * world :=
+    if N.eqb (fst row) null_id then (Ok null_data, w)
+    else match get s (fst row) w with
+         | (Err e, w1) => (Err e, w1)
+         | (Ok c, w1) => match data_of c with Some b => (Ok b, w1) | None => (Err EOther, w1) end
+         end.
+
+  Fixpoint copy_index (s : stack) (null_id : id) (null_data : bytes) (rows : list (id * nat)) (w : world)
+    : bytes * bool * world :=
+    match rows with
+    | [] => ([], true, w)
+    | r :: rest =>
+        match readseeker_load_err s null_id null_data r w with
+        | (Ok b, w1) => let '(bs, ok, w2) := copy_index s null_id null_data rest w1 in (b ++ bs, ok, w2)
+        | (Err _, w1) => ([], false, w1)       (* io.EOF from the store became io.ErrUnexpectedEOF *)
+        end
+    end.
+
+  (* The same before commit 898d634: Read handed the store's io.EOF on unchanged, so Copy
+     stopped there and reported success.  Kept for the refutation theorem only. *)
+  Fixpoint copy_index_pre898d634 (s : stack) (null_id : id) (null_data : bytes) (rows : list (id * nat)) (w : world)
+    : bytes * bool * world :=
+    match rows with
+    | [] => ([], true, w)
+    | r :: rest =>
+        match readseeker_load_err s null_id null_data r w with
+        | (Ok b, w1) => let '(bs, ok, w2) := copy_index_pre898d634 s null_id null_data rest w1 in (b ++ bs, ok, w2)
+        | (Err EEof, w1) => ([], true, w1)     (* Read returns (n, io.EOF): Copy stops, error nil *)
+        | (Err _, w1) => ([], false, w1)
+        end
+    end.
+
+  (* Stacks whose GetChunk never returns a bare io.EOF: the casync protocol client is not on
+     top (StoreRouter wraps every error it passes on; an HTTP client wraps transport errors). *)
+  Fixpoint never_eof (s : stack) : bool :=
+    match s with
+    | W _ => true
+    | Cache up _ => never_eof up
+    | Router _ => true
+    | Failover _ s0 ss => never_eof s0 && forallb never_eof ss
+    | Dedup s' | Swap s' => never_eof s'
+    | Http _ _ _ _ _ _ => true
+    | Proto _ _ => false
     end.
 
   (* A consumer run over the rows of an index, one after the other. *)
